@@ -67,6 +67,26 @@ func (u *uniq) word(p string) string {
 	return fmt.Sprintf("%s%d%c", p, u.n, 'a'+byte(u.r.Intn(26)))
 }
 
+// ruleKey renders a rule key the way the kernel does: one key quoted, several keys (a rule with more
+// than one -k) joined by 0x01 and therefore hex-encoded, no key as (null). Components may be empty.
+func (u *uniq) ruleKey() string {
+	switch x := u.r.Intn(20); {
+	case x < 13:
+		return `"` + u.word("key") + `"`
+	case x < 14:
+		return "(null)"
+	default:
+		n := u.r.Range(2, 4)
+		parts := make([]string, n)
+		for i := range parts {
+			if !u.r.Chance(1, 4) {
+				parts[i] = u.word("key")
+			}
+		}
+		return Hex([]byte(strings.Join(parts, "\x01")))
+	}
+}
+
 // EventOpts tunes the event generator.
 type EventOpts struct {
 	Mode int // >= 0: force this st_mode on the first non-PARENT PATH record
@@ -86,8 +106,8 @@ func GenSyscallGroup(r *mon.Rand, o EventOpts) Group {
 	if success == "no" {
 		exit = mon.Pick(r, []string{"-1", "-2", "-13", "-17"})
 	}
-	sys := fmt.Sprintf("type=SYSCALL %s arch=c000003e syscall=%s success=%s exit=%s a0=%s a1=%s a2=%s a3=%s items=%d ppid=%s pid=%s auid=%s uid=%s gid=%s euid=%s suid=%s fsuid=%s egid=%s sgid=%s fsgid=%s tty=%s ses=%s comm=\"%s\" exe=\"/usr/bin/%s\" subj=%s:%s:%s:s0 key=\"%s\"",
-		hdr, sc, success, exit, u.word("x"), u.word("y"), u.word("z"), u.word("w"), r.Intn(4), u.num(), u.num(), u.num(), u.num(), u.num(), u.num(), u.num(), u.num(), u.num(), u.num(), u.num(), u.word("pts"), u.num(), u.word("comm"), u.word("exe"), u.word("su"), u.word("sr"), u.word("st"), u.word("key"))
+	sys := fmt.Sprintf("type=SYSCALL %s arch=c000003e syscall=%s success=%s exit=%s a0=%s a1=%s a2=%s a3=%s items=%d ppid=%s pid=%s auid=%s uid=%s gid=%s euid=%s suid=%s fsuid=%s egid=%s sgid=%s fsgid=%s tty=%s ses=%s comm=\"%s\" exe=\"/usr/bin/%s\" subj=%s:%s:%s:s0 key=%s",
+		hdr, sc, success, exit, u.word("x"), u.word("y"), u.word("z"), u.word("w"), r.Intn(4), u.num(), u.num(), u.num(), u.num(), u.num(), u.num(), u.num(), u.num(), u.num(), u.num(), u.num(), u.word("pts"), u.num(), u.word("comm"), u.word("exe"), u.word("su"), u.word("sr"), u.word("st"), u.ruleKey())
 	var rest []string
 	add := func(l string) { rest = append(rest, l) }
 	if r.Chance(2, 3) {
@@ -262,8 +282,8 @@ func GenTypedCompound(r *mon.Rand, typ string) Group {
 	first := fmt.Sprintf("type=%s %s pid=%s uid=%s auid=%s ses=%s msg='op=%s id=%s acct=\"%s\" exe=\"/usr/sbin/%s\" hostname=%s addr=198.51.%d.%d terminal=%s res=%s'",
 		typ, hdr, u.num(), u.num(), u.num(), u.num(), u.word("op"), u.num(), u.word("acct"), u.word("ux"), u.word("host"), r.Intn(250), r.Intn(250)+1, u.word("term"), mon.Pick(r, []string{"success", "failed"}))
 	sc := mon.Pick(r, []string{"0", "1", "2", "3", "9", "41", "42", "43", "44", "45", "49", "56", "57", "59", "62", "82", "84", "87", "90", "92", "101", "105", "106", "117", "155", "165", "175", "176", "257", "263", "288", "313", "321"})
-	sys := fmt.Sprintf("type=SYSCALL %s arch=c000003e syscall=%s success=yes exit=0 a0=%s a1=%s a2=%s a3=%s items=0 ppid=%s pid=%s auid=%s uid=%s gid=%s euid=%s suid=%s fsuid=%s egid=%s sgid=%s fsgid=%s tty=%s ses=%s comm=\"%s\" exe=\"/usr/bin/%s\" key=\"%s\"",
-		hdr, sc, u.word("x"), u.word("y"), u.word("z"), u.word("w"), u.num(), u.num(), u.num(), u.num(), u.num(), u.num(), u.num(), u.num(), u.num(), u.num(), u.num(), u.word("pts"), u.num(), u.word("comm"), u.word("exe"), u.word("key"))
+	sys := fmt.Sprintf("type=SYSCALL %s arch=c000003e syscall=%s success=yes exit=0 a0=%s a1=%s a2=%s a3=%s items=0 ppid=%s pid=%s auid=%s uid=%s gid=%s euid=%s suid=%s fsuid=%s egid=%s sgid=%s fsgid=%s tty=%s ses=%s comm=\"%s\" exe=\"/usr/bin/%s\" key=%s",
+		hdr, sc, u.word("x"), u.word("y"), u.word("z"), u.word("w"), u.num(), u.num(), u.num(), u.num(), u.num(), u.num(), u.num(), u.num(), u.num(), u.num(), u.num(), u.word("pts"), u.num(), u.word("comm"), u.word("exe"), u.ruleKey())
 	g := Group{Lines: []string{first, sys}}
 	if r.Chance(1, 3) {
 		g.Lines = append(g.Lines, fmt.Sprintf("type=CWD %s  cwd=\"/home/%s\"", hdr, u.word("cwd")))
